@@ -200,3 +200,344 @@ class ProjGen:
 def random_projects(rng, n, focus=""):
     g = ProjGen(rng, focus)
     return [project_scenario(g.project(), "rnd-project") for _ in range(n)]
+
+
+# --------------------------------------------------------------------------------------
+# histories (C12 / C13): TLC emits {"start": {id: content}, "h": [{"op": {...}, "after": {id: content}}]}
+# --------------------------------------------------------------------------------------
+CONTENT_TEXT = {
+    "itf": "package p;\nimport p.B;\ninterface A {\n  void f(in B b);\n}\n",
+    "par": "package p;\nparcelable B {\n  int x;\n}\n",
+    "enu": "package p;\nenum B { X, Y }\n",
+    "bad": "package p;\ninterface { oops\n",
+    "itfA1": "package p;\nimport p.B;\nimport q.C;\ninterface A {\n  void f(in B b, C c);\n}\n",
+    "itfA2": "package p;\nimport p.B;\nimport q.C;\ninterface A {\n  B g();\n  void h(in C c, in B[] bs);\n}\n",
+    "parB1": "package p;\nparcelable B {\n  int x;\n}\n",
+    "parB2": "package p;\n/** other body */\nparcelable B {\n  String s;\n  long y;\n}\n",
+    "enuB": "package p;\nenum B { X, Y }\n",
+    "itfC": "package q;\nimport p.B;\ninterface C {\n  void k(in B b);\n}\n",
+    "parU": "package z;\nparcelable U {\n  int u;\n}\n",
+}
+
+
+def _dict(x):
+    return x if isinstance(x, dict) else {}
+
+
+def _fresh(ops, state, inst=2, detail="digest"):
+    ops.append({"op": "new", "i": inst})
+    for id_ in sorted(state):
+        ops.append({"op": "add", "i": inst, "id": id_, "text": CONTENT_TEXT[state[id_]]})
+    ops.append({"op": "validate", "i": inst, "detail": detail})
+
+
+def _apply(ops, op, inst=1):
+    k = op["k"]
+    if k == "add":
+        ops.append({"op": "add", "i": inst, "id": op["id"], "text": CONTENT_TEXT[op["c"]]})
+    elif k == "addfile":
+        ops.append({"op": "addfile", "i": inst, "path": op["id"], "mode": "ok", "text": CONTENT_TEXT[op["c"]]})
+    elif k in ("missing", "badutf8"):
+        ops.append({"op": "addfile", "i": inst, "path": op["id"], "mode": k, "text": "package junk;"})
+    elif k == "remove":
+        ops.append({"op": "remove", "i": inst, "id": op["id"]})
+    elif k == "validate":
+        ops.append({"op": "validate", "i": inst, "detail": "digest"})
+
+
+def hist_scenario(s, src, entry="direct"):
+    """Replays one TLC behaviour; after EVERY step the live parser and a fresh parser loaded from the
+    abstract state TLC attached to that step are both validated (the trace spec compares them)."""
+    start = _dict(s["start"])
+    ops = [{"op": "new", "i": 1}]
+    if entry == "direct":
+        for id_ in sorted(start):
+            ops.append({"op": "add", "i": 1, "id": id_, "text": CONTENT_TEXT[start[id_]]})
+    else:
+        # a longer way into the same abstract state: wrong contents first, a replace, a
+        # remove-and-re-add, a file load, failed loads and validations in between
+        others = ["par", "bad", "itf", "enu"]
+        for n, id_ in enumerate(sorted(start, reverse=True)):
+            ops.append({"op": "add", "i": 1, "id": id_, "text": CONTENT_TEXT[others[n % 4]]})
+            ops.append({"op": "validate", "i": 1, "detail": "digest"})
+        ops.append({"op": "add", "i": 1, "id": "zz", "text": CONTENT_TEXT["itf"]})
+        for n, id_ in enumerate(sorted(start)):
+            if n == 0:
+                ops.append({"op": "remove", "i": 1, "id": id_})
+                ops.append({"op": "addfile", "i": 1, "path": id_, "mode": "badutf8", "text": "package junk;"})
+                ops.append({"op": "add", "i": 1, "id": id_, "text": CONTENT_TEXT[start[id_]]})
+            elif n == 1:
+                ops.append({"op": "addfile", "i": 1, "path": id_, "mode": "ok", "text": CONTENT_TEXT[start[id_]]})
+            else:
+                ops.append({"op": "add", "i": 1, "id": id_, "text": CONTENT_TEXT[start[id_]]})
+        ops.append({"op": "remove", "i": 1, "id": "zz"})
+        ops.append({"op": "remove", "i": 1, "id": "never-added"})
+        ops.append({"op": "addfile", "i": 1, "path": "missing-file", "mode": "missing", "text": ""})
+    ops.append({"op": "validate", "i": 1, "detail": "digest"})
+    _fresh(ops, start)
+    steps = s["h"]
+    for n, st in enumerate(steps):
+        _apply(ops, st["op"])
+        ops.append({"op": "validate", "i": 1, "detail": "full" if n + 1 == len(steps) else "digest"})
+        _fresh(ops, _dict(st["after"]))
+    return {"sid": "", "src": src, "ops": ops}
+
+
+def trans_scenario(s, src):
+    """One transition (from, op, to) of the locality model, observed in full before and after."""
+    start = _dict(s["start"])
+    ops = [{"op": "new", "i": 1}]
+    for id_ in sorted(start):
+        ops.append({"op": "add", "i": 1, "id": id_, "text": CONTENT_TEXT[start[id_]]})
+    ops.append({"op": "validate", "i": 1})
+    for st in s["h"]:
+        _apply(ops, st["op"])
+        ops.append({"op": "validate", "i": 1})
+    return {"sid": "", "src": src, "ops": ops}
+
+
+def random_histories(rng, n, maxlen=40, fresh_every=4):
+    """Random operation sequences over random projects; the driver keeps the id -> text map only to be
+    able to load a fresh parser with the same surviving contents (an input, not an expectation)."""
+    out = []
+    g = ProjGen(rng, "C12")
+    for _ in range(n):
+        pool = []
+        for _k in range(2):
+            pr = g.project()
+            pool += [R.text_of(R.default_layout(f["toks"])) for f in pr["files"]]
+        pool += ["", "package p; interface {", "garbage é中", "package p; parcelable B { int x; }"]
+        ids = ["a", "b", "c", "d", "e"][:rng.randint(2, 5)]
+        ops = [{"op": "new", "i": 1}]
+        state = {}
+        for step in range(rng.randint(3, maxlen)):
+            x = rng.random()
+            id_ = rng.choice(ids)
+            if x < 0.45:
+                t = rng.choice(pool)
+                ops.append({"op": "add", "i": 1, "id": id_, "text": t})
+                state[id_] = t
+            elif x < 0.55:
+                t = rng.choice(pool)
+                ops.append({"op": "addfile", "i": 1, "path": id_, "mode": "ok", "text": t})
+                state[id_] = t
+            elif x < 0.65:
+                ops.append({"op": "addfile", "i": 1, "path": id_, "mode": rng.choice(["missing", "badutf8"]), "text": rng.choice(pool)})
+            elif x < 0.85:
+                ops.append({"op": "remove", "i": 1, "id": rng.choice(ids + ["ghost"])})
+                state.pop(ops[-1]["id"], None)
+            else:
+                ops.append({"op": "validate", "i": 1, "detail": "digest"})
+            if step % fresh_every == fresh_every - 1:
+                ops.append({"op": "validate", "i": 1, "detail": "digest"})
+                ops.append({"op": "new", "i": 2})
+                for k in sorted(state, reverse=rng.random() < 0.5):
+                    ops.append({"op": "add", "i": 2, "id": k, "text": state[k]})
+                ops.append({"op": "validate", "i": 2, "detail": "digest"})
+        ops.append({"op": "validate", "i": 1})
+        ops.append({"op": "new", "i": 2})
+        for k in sorted(state):
+            ops.append({"op": "add", "i": 2, "id": k, "text": state[k]})
+        ops.append({"op": "validate", "i": 2, "detail": "digest"})
+        out.append({"sid": "", "src": "rnd-history", "ops": ops})
+    return out
+
+
+def random_perturbations(rng, n):
+    """Projects observed before and after a change to ANOTHER file (body rewrite keeping package, name and
+    kind; unrelated file added / removed; kind change / removal of an imported file as the control)."""
+    out = []
+    g = ProjGen(rng, "C13")
+    for _ in range(n):
+        pr = g.project()
+        files = {f["id"]: f["toks"] for f in pr["files"]}
+        ops = [{"op": "new", "i": 1}]
+        for id_, toks in files.items():
+            ops.append({"op": "add", "i": 1, "id": id_, "text": R.text_of(R.default_layout(toks))})
+        ops.append({"op": "validate", "i": 1})
+        for _k in range(rng.randint(1, 4)):
+            x = rng.random()
+            if x < 0.35:
+                ops.append({"op": "add", "i": 1, "id": "extra%d" % rng.randint(0, 2),
+                            "text": "package un.related%d;\nparcelable U%d { int u; }\n" % (rng.randint(0, 3), rng.randint(0, 3))})
+            elif x < 0.55 and len(files) > 1:
+                ops.append({"op": "remove", "i": 1, "id": rng.choice(list(files))})
+            elif x < 0.65:
+                ops.append({"op": "remove", "i": 1, "id": "extra%d" % rng.randint(0, 2)})
+            else:
+                # rewrite the body of some file keeping its header: regenerate members with the same name/kind
+                id_ = rng.choice(list(files))
+                toks = files[id_]
+                try:
+                    brace = next(i for i, t in enumerate(toks) if t[1] == "{")
+                except StopIteration:
+                    continue
+                kind = next(t[1] for t in toks[:brace] if t[1] in ("interface", "parcelable", "enum"))
+                body = {"interface": [T("void"), T("np%d" % rng.randint(0, 9), "IDENT"), T("("), T(")"), T(";")],
+                        "parcelable": [T("long"), T("nf%d" % rng.randint(0, 9), "IDENT"), T(";")],
+                        "enum": [T("N%d" % rng.randint(0, 9), "IDENT")]}[kind]
+                files[id_] = toks[:brace + 1] + body + [T("}")]
+                ops.append({"op": "add", "i": 1, "id": id_, "text": R.text_of(R.default_layout(files[id_]))})
+            ops.append({"op": "validate", "i": 1})
+        out.append({"sid": "", "src": "rnd-perturb", "ops": ops})
+    return out
+
+
+# --------------------------------------------------------------------------------------
+# determinism (C11): same (id, content) pairs through repeated calls, new instances, other insertion
+# orders, another thread and further processes
+# --------------------------------------------------------------------------------------
+def determinism_scenario(files, src, rng, layout="default", procs=2):
+    texts = []
+    for f in files:
+        if "text" in f:
+            texts.append((f["id"], f["text"]))
+        else:
+            pieces = R.oneline_layout(f["toks"]) if layout == "oneline" else R.default_layout(f["toks"])
+            texts.append((f["id"], R.text_of(pieces)))
+    ops = [{"op": "new", "i": 1}]
+    for id_, t in texts:
+        ops.append({"op": "add", "i": 1, "id": id_, "text": t})
+    ops.append({"op": "validate", "i": 1})
+    for _ in range(6):
+        ops.append({"op": "validate", "i": 1, "detail": "digest"})
+    ops.append({"op": "new", "i": 2})
+    for id_, t in reversed(texts):
+        ops.append({"op": "add", "i": 2, "id": id_, "text": t})
+    ops.append({"op": "validate", "i": 2, "detail": "digest"})
+    ops.append({"op": "validate", "i": 2, "detail": "digest", "thread": True})
+    for inst in (3, 4):
+        sh = list(texts)
+        rng.shuffle(sh)
+        ops.append({"op": "new", "i": inst})
+        for id_, t in sh:
+            ops.append({"op": "add", "i": inst, "id": id_, "text": t})
+        ops.append({"op": "validate", "i": inst, "detail": "digest", "thread": inst == 4})
+    return {"sid": "", "src": src, "ops": ops, "procs": procs}
+
+
+# --------------------------------------------------------------------------------------
+# soups (C01): arbitrary UTF-8 texts
+# --------------------------------------------------------------------------------------
+HAZARD = ["é", "中", "\U0001F600", "́", " ", "　", " ", "\u0085", "\r", "\r\n", "\t", "\"", "/", "*",
+          "​", "٣", "﻿", "\x0b", "\x00"]
+FRAGS = ["package", "import", "interface", "parcelable", "enum", "oneway", "const", "void", "String", "List", "Map",
+         "in", "out", "inout", "int", "byte", "true", "false", "CharSequence", "a", "Foo", "p.q", "x1", "_", "@A", "@B(a=1)",
+         ";", ",", "{", "}", "(", ")", "[", "]", "<", ">", "=", ".", "-", "1", "99999999999", "1.5f", "-.5", "\"s\"", "\"",
+         "/*", "*/", "/**", "//", "/** d */", "/* c */", "// c\n", "class", "for", "new", "= 9999999999;", "= 9999999999;"]
+
+
+def soup_text(rng, kind, base_docs):
+    if kind == "char":
+        n = rng.choice([0, 1, 2, 5, 20, 80, 300])
+        alpha = HAZARD + list("abz_09 \n;{}()<>[]=.,-@\"/*") + ["package ", "interface "]
+        return "".join(rng.choice(alpha) for _ in range(n))
+    if kind == "token":
+        n = rng.choice([1, 3, 8, 20, 60, 200])
+        seps = [" ", "", "\n", "\t", "\r\n", " /* c */ ", "//x\n", " ", "　"]
+        return "".join(rng.choice(FRAGS) + rng.choice(seps) for _ in range(n))
+    if kind == "mutate":
+        t = rng.choice(base_docs)
+        for _ in range(rng.randint(1, 4)):
+            if not t:
+                break
+            pos = rng.randint(0, len(t))
+            x = rng.random()
+            if x < 0.4:
+                t = t[:pos] + rng.choice(HAZARD + FRAGS) + t[pos:]
+            elif x < 0.7:
+                t = t[:pos] + t[pos + rng.randint(1, 6):]
+            else:
+                t = t[:pos] + rng.choice(HAZARD + FRAGS) + t[pos + 1:]
+        return t
+    if kind == "nest":
+        d = rng.choice([1, 5, 17, 40, 64])
+        shape = rng.choice(["list", "map", "array", "mixed"])
+        ty = "int"
+        for k in range(d):
+            s = shape if shape != "mixed" else rng.choice(["list", "map", "array"])
+            ty = {"list": f"List<{ty}>", "map": f"Map<String,{ty}>", "array": f"{ty}[]"}[s]
+        return f"package p; parcelable N {{ {ty} deep; }}"
+    if kind == "big":
+        target = rng.choice([4096, 20000, 65536])
+        parts = ["package p;\ninterface Big {\n"]
+        size, k = len(parts[0]), 0
+        while size < target - 80:
+            m = "  /** doc %d é */ void m%d(in int a, out int[] b, inout List<String> c);\n" % (k, k)
+            parts.append(m)
+            size += len(m.encode())
+            k += 1
+        parts.append("}\n")
+        return "".join(parts)
+    return ""
+
+
+def soup_scenarios(rng, n, base_docs):
+    out = []
+    kinds = ["char"] * 4 + ["token"] * 4 + ["mutate"] * 8 + ["nest"] + ["big"]
+    for k in range(n):
+        nfiles = rng.choice([1, 1, 1, 2, 3, 6])
+        ops = [{"op": "new", "i": 1}]
+        for f in range(nfiles):
+            kind = rng.choice(kinds)
+            if kind == "big" and k % 40:
+                kind = "mutate"
+            ops.append({"op": "add", "i": 1, "id": f"s{f}", "text": soup_text(rng, kind, base_docs)})
+        ops.append({"op": "validate", "i": 1, "detail": "digest"})
+        out.append({"sid": "", "src": "soup", "ops": ops})
+    return out
+
+
+def injection_scenarios(base_docs, atoms):
+    """Every hazard atom injected at every character gap adjacent to a token / comment boundary of the base documents."""
+    out = []
+    for d, t in enumerate(base_docs):
+        cuts = [i for i in range(len(t) + 1)
+                if i == 0 or i == len(t) or not (t[i - 1].isalnum() and t[i].isalnum())]
+        for atom in atoms:
+            ops = [{"op": "new", "i": 1}]
+            for n, c in enumerate(cuts):
+                ops.append({"op": "add", "i": 1, "id": "x", "text": t[:c] + atom + t[c:]})
+                ops.append({"op": "validate", "i": 1, "detail": "digest"})
+            out.append({"sid": "", "src": "inject", "ops": ops})
+    return out
+
+
+DOC_FRAME_1 = '''// header
+package com.ex.app;
+import com.ex.app.Data;
+import android.os.IBinder;
+parcelable Fwd;
+/**
+ * Service doc
+ * @see other
+ */
+@VintfStability @Backing(type="int", n=3)
+oneway interface IService {
+    /** Method doc */
+    @nullable void send(in @utf8InCpp String s, out int[] arr, inout List<Data> l, in Map<String,IBinder> m, int) = 10;
+    oneway void ping(); // trailing
+    /* block */ const int VERSION = 3;
+    const String NAME = "na/*me";
+    Data[] get(in Fwd f, in android.os.ParcelFileDescriptor fd) = 9999999999;
+}
+'''
+DOC_FRAME_2 = '''package p;
+/** Parcel doc */
+parcelable P {
+    /** field doc */ int a = 1;
+    @A String s = "x";
+    float f = -1.5f;
+    int[] arr = {1, 2, 3};
+    const int C = A.B;
+    Map m;
+    List<String> l = {};
+}
+'''
+DOC_FRAME_3 = '''package p;
+/** E doc */ @Backing(type="byte") enum E {
+    /** first */ A = 1,
+    B,
+    @X C = "c",
+}
+'''
